@@ -292,6 +292,23 @@ impl Property for C13 {
                 }
             }
         }
+        // fixed-base multiplication with even / odd numbers of bits and the top bit set; table lookups with
+        // every index of 4- and 8-entry tables
+        {
+            let alloc = |dst: u8, k: u64| GOp::AllocElem { dst, src: MulGen(k.into()), mode: Mode::Witness, via: Via::Element };
+            for (nbits, k) in [(1u16, 1u64), (2, 2), (2, 3), (3, 4), (3, 7), (4, 8), (4, 9), (5, 16), (8, 0x80), (8, 0xff), (63, 1 << 62), (64, 1 << 63), (64, u64::MAX)] {
+                for bits_const in [false, true] {
+                    v.push(Case::Program { prog: vec![alloc(0, 5), GOp::FixedBaseMul { dst: 1, a: 0, base: Generator, k: k.into(), nbits, bits_const }, GOp::Compress { dst: 0, e: 1 }] });
+                }
+            }
+            for (bits, n) in [(2u8, 4u8), (3, 8)] {
+                for index in 0..n {
+                    for bits_const in [false, true] {
+                        v.push(Case::Program { prog: vec![alloc(0, 3), alloc(1, 5), alloc(2, 7), alloc(3, 11), GOp::Double { dst: 1, a: 1 }, GOp::SelectVector { dst: 0, bits, index, regs: vec![0, 1, 2, 3, 1, 0, 3, 2], bits_const }, GOp::Compress { dst: 0, e: 0 }] });
+                    }
+                }
+            }
+        }
         // lazily allocated operands (valid and undecodable encodings) whose first consumer is an equality /
         // selection gadget: a gadget that works on the encodings alone must still reject the undecodable one
         for (a, b) in [(8u32, 3u32), (3, 8), (8, 8), (3, 3), (0, 2), (2, 0), (8, 1), (1, 8)] {
